@@ -4,8 +4,8 @@
 #include "lib.h"
 #include "oracle.h"
 
-enum { F_UNIFORM, F_ALLMAX, F_ALTERNATING, F_RESONANT, F_SPARSE, F_ONEHUGE, F_BOUNDARY, F_FRONTIER, F_SMALL, NFAM };
-static const char* famn[] = {"uniform", "allmax", "alternating", "resonant", "sparse", "onehuge", "boundary", "frontier", "small"};
+enum { F_UNIFORM, F_ALLMAX, F_ALTERNATING, F_RESONANT, F_SPARSE, F_ONEHUGE, F_BOUNDARY, F_FRONTIER, F_SMALL, F_GEOMETRIC, F_TWOLEVEL, F_BLOCKSIGN, NFAM };
+static const char* famn[] = {"uniform", "allmax", "alternating", "resonant", "sparse", "onehuge", "boundary", "frontier", "small", "geometric", "twolevel", "blocksign"};
 #define LIM50 (((int64_t)1 << 50) - 1)
 
 typedef struct {
@@ -140,6 +140,39 @@ void c01_gen_pair(rng_t* r, int fam, uint64_t N, int64_t* a, int64_t* b) {
       // shrink until E < 1/2 and the domain holds
       for (int it = 0; it < 200 && (!in_domain(N, a, b) || c01_budget_E(N, a, b) >= 0.4995L); it++)
         for (uint64_t i = 0; i < N; i++) b[i] -= b[i] / 16 + (b[i] > 0 ? 1 : (b[i] < 0 ? -1 : 0)) * (llabs(b[i]) > 1);
+      break;
+    }
+    case F_GEOMETRIC: {
+      // magnitudes decaying geometrically from 2^48 to 1 (mixed magnitudes inside one operand); b small dense
+      for (uint64_t i = 0; i < N; i++) {
+        double e = 48.0 * (1.0 - (double)i / (double)N);
+        int64_t v = (int64_t)ldexp(1.0, (int)e);
+        a[(rng_u64(r) & 1) ? i : N - 1 - i] = (rng_u64(r) & 1) ? v : -v;
+        b[i] = rng_range(r, -1, 1);
+      }
+      break;
+    }
+    case F_TWOLEVEL: {
+      // half of the coefficients large, half tiny, in both operands (the safety net scales b into the domain)
+      int ba = (int)rng_range(r, 20, 44), bb = (int)rng_range(r, 4, 20);
+      for (uint64_t i = 0; i < N; i++) {
+        a[i] = (rng_u64(r) & 1) ? rng_sbits(r, (unsigned)ba) : rng_range(r, -2, 2);
+        b[i] = (rng_u64(r) & 1) ? rng_sbits(r, (unsigned)bb) : rng_range(r, -2, 2);
+      }
+      break;
+    }
+    case F_BLOCKSIGN: {
+      // sign pattern constant on blocks of length 2^j (energy concentrated on few evaluation points)
+      int tot = 51 - (int)lg;
+      int ba = tot / 2, bb = tot - ba;
+      if (ba < 1) ba = 1;
+      if (bb < 1) bb = 1;
+      int64_t A = ((int64_t)1 << ba) - 1, B = ((int64_t)1 << bb) - 1;
+      unsigned j = (unsigned)rng_range(r, 0, lg ? lg - 1 : 0), j2 = (unsigned)rng_range(r, 0, lg ? lg - 1 : 0);
+      for (uint64_t i = 0; i < N; i++) {
+        a[i] = ((i >> j) & 1) ? -A : A;
+        b[i] = ((i >> j2) & 1) ? -B : B;
+      }
       break;
     }
     default:
